@@ -36,6 +36,12 @@ def run(prop, tier, cfg):
             os.makedirs(env['CARGO_TARGET_DIR'], exist_ok=True)
             with open(os.path.join(env['CARGO_TARGET_DIR'], '.vp.lock'), 'w') as lk:
                 fcntl.flock(lk, fcntl.LOCK_EX)
+                # cargo decides freshness by mtime against the previous build in this target directory: sources prepared while
+                # another check was still building would look older than its output, and its binary would be run instead
+                now = time.time()
+                for root, _, files in os.walk(os.path.join(scratch, 'src')):
+                    for fn in files:
+                        os.utime(os.path.join(root, fn), (now, now))
                 p = subprocess.run(cmd, cwd=scratch, env=env, capture_output=True, text=True, timeout=cfg.get('timeout', 1500))
         except subprocess.TimeoutExpired:
             out['undecided'].append('native checks timed out')
